@@ -87,6 +87,27 @@ func main() {
 			}
 		}
 		os.Exit(0)
+	case "effects":
+		// print the may-write summary of functions (debug aid for frames)
+		p, err := loadProg(o.repo, []string{"./..."})
+		if err != nil {
+			fmt.Fprintln(os.Stderr, err)
+			os.Exit(2)
+		}
+		p.buildEffects()
+		for _, a := range fs.Args() {
+			for name, fn := range p.Funcs {
+				if strings.HasSuffix(name, a) && fn.Blocks != nil {
+					ks := p.effects.of(fn)
+					sort.Strings(ks)
+					fmt.Printf("%s: %d keys\n", name, len(ks))
+					for _, k := range ks {
+						fmt.Println("   ", k)
+					}
+				}
+			}
+		}
+		os.Exit(0)
 	case "replay":
 		os.Exit(runReplay(&o, fs.Args()))
 	default:
